@@ -27,6 +27,7 @@
 (* Roles of the looped components (the harness renders them to names):     *)
 (*   "W"  consumes the input bindings `inp` (:output) and `fix`            *)
 (*   "A"  (optional) consumes W of the same iteration and `fix`            *)
+(*   "S"  (optional) a separate producer of the condition, in its own stage *)
 (* Outside the loop: producers "gen" and "src" in stage 0 (the original    *)
 (* bindings inp -> gen, fix -> src) and consumers that reference the       *)
 (* placeholders with :ref, :output, :loopref and :loopoutput.              *)
@@ -59,8 +60,8 @@ Meths  == {"ref", "output", "loopref", "loopoutput"}
 ---------------------------------------------------------------------------
 (* The family of documents *)
 
-ShapeSpace == [off : Offsets, aux : BOOLEAN, sw : 0..1, sa : 0..1, carry : {"none", "W", "A"},
-               cond : {"W", "A"}, repl : Repls, names : NameKinds, twin : Twins]
+ShapeSpace == [off : Offsets, aux : BOOLEAN, sw : 0..1, sa : 0..1, sc : 0..1, carry : {"none", "W", "A"},
+               cond : {"W", "A", "S"}, repl : Repls, names : NameKinds, twin : Twins]
 
 (* Documents the loader legitimately supports (everything else is outside the property):            *)
 (*  - a consumer is never in an earlier stage than its producer, also across iterations               *)
@@ -71,11 +72,12 @@ ShapeSpace == [off : Offsets, aux : BOOLEAN, sw : 0..1, sa : 0..1, carry : {"non
 (*    bound to (component identity is (stage, name), so this is legal as long as they are in different *)
 (*    stages), and A uses `fix` and W with the same method in one argument string.                     *)
 ValidShape(s) ==
-    /\ s.aux = FALSE => (s.sa = s.sw /\ s.carry # "A" /\ s.cond = "W" /\ s.repl = 0 /\ s.names = "plain")
+    /\ s.aux = FALSE => (s.sa = s.sw /\ s.carry # "A" /\ s.cond # "A" /\ s.repl = 0 /\ s.names = "plain")
+    /\ s.cond # "S" => s.sc = 0                       \* sc only matters when the separate condition producer exists
     /\ s.aux => s.sw <= s.sa
     /\ s.carry = "A" => s.sa = s.sw
-    /\ s.repl > 0 => (s.aux /\ s.carry # "W" /\ s.cond = "A" /\ s.names = "plain")
-    /\ s.names = "tricky" => (s.aux /\ s.off + s.sw >= 1)
+    /\ s.repl > 0 => (s.aux /\ s.carry # "W" /\ s.cond # "W" /\ s.names = "plain")
+    /\ s.names = "tricky" => (s.aux /\ s.off + s.sw >= 1 /\ s.cond # "S")
     /\ s.twin => (s.repl = 0 /\ s.names = "plain")
 
 Shapes == {s \in ShapeSpace : ValidShape(s)}
@@ -92,9 +94,10 @@ vars == <<sh, k, inst, wire, latest, order, cond, insp>>
 unrolled == <<sh, k, inst, wire, latest, order, cond>>   \* the workflow itself
 
 Loops(s)   == IF s.twin THEN {1, 2} ELSE {1}
-Roles(s)   == IF s.aux THEN {"W", "A"} ELSE {"W"}
+Consumed(s) == IF s.aux THEN {"W", "A"} ELSE {"W"}       \* the roles that take part in the dataflow of the loop
+Roles(s)   == Consumed(s) \cup (IF s.cond = "S" THEN {"S"} ELSE {})
 Off(s, d)  == s.off + 2 * (d - 1)                    \* import stage of loop d
-Body(s, r) == IF r = "W" THEN s.sw ELSE s.sa         \* stage of a role inside the document
+Body(s, r) == IF r = "W" THEN s.sw ELSE IF r = "A" THEN s.sa ELSE s.sc    \* stage of a role inside the document
 Reps(s, r) == IF s.repl > 0 /\ r = "W" THEN 0 .. (s.repl - 1) ELSE {NoRep}
 FixMeth(s) == IF s.names = "tricky" THEN "output" ELSE "ref"
 Bound(d)   == IF d = 1 THEN MaxK ELSE MaxK2
@@ -113,7 +116,12 @@ RefsOf(s, d, i, r, prev) ==
                ELSE OrigInp                                                               \* original binding
     IN  IF r = "W"
         THEN {inp, OrigFix(s)}
-        ELSE {Ref(Off(s, d) + Body(s, "W"), i, "W", j, "output") : j \in Reps(s, "W")} \cup {OrigFix(s)}
+        ELSE IF r = "A"
+        THEN {Ref(Off(s, d) + Body(s, "W"), i, "W", j, "output") : j \in Reps(s, "W")} \cup {OrigFix(s)}
+        ELSE \* "S": the separate condition producer looks at what its stage allows (A, else an unreplicated W, else nothing)
+             IF s.aux /\ s.sc >= s.sa THEN {Ref(Off(s, d) + Body(s, "A"), i, "A", NoRep, "output")}
+             ELSE IF s.repl = 0 /\ s.sc >= s.sw THEN {Ref(Off(s, d) + Body(s, "W"), i, "W", NoRep, "output")}
+             ELSE {}
 
 NewInstances(s, d, i) == UNION {{[loop |-> d, iter |-> i, role |-> r, rep |-> j] : j \in Reps(s, r)} : r \in Roles(s)}
 
@@ -176,13 +184,13 @@ CarriedFromPrevious ==
 
 (* "... and its other inputs from the original bindings" (and iteration 0 takes all of them from there) *)
 OthersFromOriginal ==
-    \A x \in inst : /\ OrigFix(sh) \in wire[x]
+    \A x \in inst : /\ x.role \in {"W", "A"} => OrigFix(sh) \in wire[x]
                     /\ (x.role = "W" /\ (x.iter = 0 \/ sh.carry = "none")) => OrigInp \in wire[x]
                     /\ \A q \in wire[x] : q.iter = NoIter => q \in {OrigInp, OrigFix(sh)}
 
 (* references between looped components stay inside one iteration ... *)
 SameIterationInside ==
-    \A x \in inst : x.role = "A" => \A q \in wire[x] : q.prod = "W" => q.iter = x.iter
+    \A x \in inst : x.role \in {"A", "S"} => \A q \in wire[x] : q.iter # NoIter => q.iter = x.iter
 
 (* ... and their stage index never drifts: import stage + stage inside the document, for every iteration *)
 NoStageDrift ==
@@ -205,6 +213,11 @@ OutsideResolution == \A d \in Loops(sh) : \A r \in Roles(sh) : \A m \in Meths :
 
 (* "the loop's current condition is the one produced by iteration k" -- of that loop *)
 ConditionFromNewest == \A d \in Loops(sh) : cond[d] = k[d]
+(* ... and it names an existing component: the instance of the condition producer of that iteration, which lives in *)
+(* the stage `import stage + document stage of the condition producer` (CondStage).  Consumers outside the loop      *)
+(* wait for it (the loop is over only when its latest condition says so).                                           *)
+CondStage(d) == Off(sh, d) + Body(sh, sh.cond)
+ConditionExists == \A d \in Loops(sh) : [loop |-> d, iter |-> cond[d], role |-> sh.cond, rep |-> NoRep] \in inst
 
 TypeOK == /\ sh \in Shapes
           /\ \A d \in Loops(sh) : k[d] \in 0 .. Bound(d)
@@ -231,6 +244,7 @@ LexAgreesWithNumeric == \A d \in Loops(sh) : LexMax(0 .. k[d]) = k[d]
 InstJson == {[loop |-> x.loop, iter |-> x.iter, role |-> x.role, rep |-> x.rep, refs |-> wire[x]] : x \in inst}
 InspectReadOnly == [][(\E kind \in Kinds : Inspect(kind)) => UNCHANGED unrolled]_vars
 
+NoInspect == insp = {}        \* CONSTRAINT of the emission run: the unrolled workflow does not depend on insp
 EmitState == (Emit /\ insp = {}) => PrintT(ToJson([sh |-> sh, k |-> k, inst |-> InstJson, latest |-> latest,
                                      order |-> order, cond |-> cond]))
 =============================================================================
